@@ -6,7 +6,7 @@
 (* NUMBERS.  A vector is a record [v |-> <<v1..vn>>, k |-> K] of integers   *)
 (* standing for the reals  v_i / (S*K)  (S = scale, 2 = halves).  Start    *)
 (* vectors and all decorator parameters live on the base lattice (K = 1,   *)
-(* parameters in units of 1/S); only the four moment decorators leave it   *)
+(* parameters in units of 1/S); only the five moment decorators leave it   *)
 (* (their results are exact rationals, K > 1, kept in lowest terms).       *)
 (* NONE encodes Python's None (index=None, digits=None), -INF/INF an open  *)
 (* interval side.                                                          *)
@@ -78,6 +78,12 @@
 (*     accumulate over repeated application, only along a chain.           *)
 (*     (ThmIdempotent / ThmAll / ReapplyNoop check exactly this.)          *)
 (* The docstring examples of impose_as are ASSUMEd below (AsDocExamples).  *)
+(* WITH_STD (kind "std") is specified like with_variance: the docstring    *)
+(* calls it an outer coupling of impose_std, so with_std(t) reaches the     *)
+(* variance t^2 and keeps the mean (premise: non-degenerate sample).       *)
+(* The measure decorators impose_measure / impose_position / impose_weight *)
+(* have their own state machine (TransformsMeasure.tla), the interval and  *)
+(* pair helpers of mystic.tools theirs (Intervals.tla, PairTools.tla).     *)
 (* SYNCHRONIZED documents "operations within a single mask are unordered": *)
 (* chains inside one synchronized mask stay outside the premise.           *)
 (***************************************************************************)
@@ -141,6 +147,7 @@ DAt(ix, target)              == D("at", ix, <<target>>, << >>, 0)          \* im
 (* DAs(pairs, offset): impose_as([(i,j),..], offset), x[j] tracks x[i]; defined with the tracking masks below *)
 DMean(t)                     == D("mean", All, <<t>>, << >>, 0)
 DVariance(t)                 == D("var", All, <<t>>, << >>, 0)
+DStd(t)                      == D("std", All, <<t>>, << >>, 0)             \* with_std(t): "an outer coupling of impose_std"
 DSpread(t)                   == D("spread", All, <<t>>, << >>, 0)
 DNormalized(t)               == D("norm", All, <<t>>, << >>, 0)
 DMasked(mask)                == D("masked", All, << >>, mask, 0)           \* mask = <<key, value>> tuples
@@ -151,7 +158,8 @@ DSyncF(mask, form)           == D("sync", All, <<form>>, mask, 0)          \* c 
 DClipped(lo, hi, exit, g)    == D("clipped", All, <<lo, hi, exit>>, << >>, g)
 DSuppressed(tol, exit, g)    == D("suppressed", All, <<tol, exit>>, << >>, g)
 
-StatKinds == {"mean", "var", "spread", "norm"}
+StatKinds == {"mean", "var", "std", "spread", "norm"}
+IsVar(d) == d.k \in {"var", "std"}          \* with_std(t) promises what with_variance(t^2) promises: variance t^2, mean kept
 IsStat(d) == d.k \in StatKinds
 (* output-rewriting decorators transform the result of the inner function *)
 IsOuter(d) == \/ d.k = "precision"
@@ -345,7 +353,7 @@ Defined(d, y) ==
        [] d.k = "mean" -> n >= 1
        \* a degenerate vector (zero spread / variance / sum) cannot be rescaled; it is fine if it conforms already
        [] d.k = "spread" -> n >= 1 /\ (Max(Rng(v)) # Min(Rng(v)) \/ d.p[1] = 0)
-       [] d.k = "var" -> n >= 1 /\ (n * SumSeq([i \in DOMAIN v |-> v[i] * v[i]]) # SumSeq(v) * SumSeq(v) \/ d.p[1] = 0)
+       [] IsVar(d) -> n >= 1 /\ (n * SumSeq([i \in DOMAIN v |-> v[i] * v[i]]) # SumSeq(v) * SumSeq(v) \/ d.p[1] = 0)
        [] d.k = "norm" -> n >= 1 /\ (SumSeq(v) # 0 \/ d.p[1] = 0)
        [] OTHER -> TRUE
 
@@ -433,7 +441,11 @@ PostOut(d, v) ==
 (* the moment decorators on rational vectors (v, k); U = S*k is the integer standing for 1.0 *)
 SqSum(v) == SumSeq([i \in DOMAIN v |-> v[i] * v[i]])
 VarW(v) == Len(v) * SqSum(v) - SumSeq(v) * SumSeq(v)       \* variance = W / (n^2 U^2)
-VarG(d, y) == d.p[1] * Len(y.v) * Len(y.v) * S * y.k * y.k \* W the target variance asks for
+VarG(d, y) == IF d.k = "std"                                  \* W the target asks for:
+              THEN d.p[1] * d.p[1] * Len(y.v) * Len(y.v) * y.k * y.k          \*   std p/S      -> variance p^2/S^2
+              ELSE d.p[1] * Len(y.v) * Len(y.v) * S * y.k * y.k               \*   variance p/S
+(* the target variance as a rational <<num, den>> (what the post-condition form of Expect prints) *)
+VarTarget(d) == IF d.k = "std" THEN <<d.p[1] * d.p[1], S * S>> ELSE <<d.p[1], S>>
 SpreadOf(v) == Max(Rng(v)) - Min(Rng(v))
 RootBound == 12
 Roots(W, G) == {r \in (0..RootBound) \X (1..RootBound) : r[1] * r[1] * W = r[2] * r[2] * G /\ Gcd(r[1], r[2]) = 1}
@@ -443,10 +455,10 @@ StatConf(d, y) ==          \* the vector already has the target moment
       n == Len(v)
   IN  CASE d.k = "mean"   -> SumSeq(v) = n * d.p[1] * y.k
         [] d.k = "spread" -> SpreadOf(v) = d.p[1] * y.k
-        [] d.k = "var"    -> VarW(v) = VarG(d, y)
+        [] IsVar(d)       -> VarW(v) = VarG(d, y)
         [] d.k = "norm"   -> SumSeq(v) = d.p[1] * y.k
 
-StatRational(d, y) == d.k # "var" \/ StatConf(d, y) \/ Roots(VarW(y.v), VarG(d, y)) # {}
+StatRational(d, y) == ~IsVar(d) \/ StatConf(d, y) \/ Roots(VarW(y.v), VarG(d, y)) # {}
 
 StatT(d, y) ==
   LET v  == y.v
@@ -459,7 +471,7 @@ StatT(d, y) ==
          [] d.k = "spread" ->    \* scale about the mean by target/spread
               LET sp == SpreadOf(v)
               IN  Canon([i \in DOMAIN v |-> sm * sp + (n * v[i] - sm) * d.p[1] * y.k], y.k * n * sp)
-         [] d.k = "var" ->       \* scale about the mean by sqrt(target/variance) = p/q
+         [] IsVar(d) ->          \* scale about the mean by sqrt(target/variance) = p/q  (std: target std / std)
               LET r == CHOOSE c \in Roots(VarW(v), VarG(d, y)) : TRUE
               IN  Canon([i \in DOMAIN v |-> sm * r[2] + (n * v[i] - sm) * r[1]], y.k * n * r[2])
          [] d.k = "norm" ->      \* scale by target/sum
@@ -473,7 +485,7 @@ StatExact(d, y) ==
   IN  y.k = 1 /\
       CASE d.k = "mean"   -> Pow2(n)
         [] d.k = "spread" -> Pow2(n) /\ (StatConf(d, y) \/ Pow2(SpreadOf(v)))
-        [] d.k = "var"    -> Pow2(n) /\ (StatConf(d, y) \/ \E r \in Roots(VarW(v), VarG(d, y)) : Pow2(r[2]))
+        [] IsVar(d)       -> Pow2(n) /\ (StatConf(d, y) \/ \E r \in Roots(VarW(v), VarG(d, y)) : Pow2(r[2]))
         [] d.k = "norm"   -> Pow2(Abs(SumSeq(v))) /\ Pow2(SumSeq([i \in DOMAIN v |-> Abs(v[i])]))
 
 -----------------------------------------------------------------------------
@@ -618,7 +630,7 @@ Expect(d, y) ==
   ELSE IF IsStat(d) THEN
          (IF StatRational(d, y)
           THEN LET r == StatT(d, y) IN [v |-> r.v, k |-> r.k, ex |-> StatExact(d, y)]
-          ELSE [pc |-> "var", m |-> <<SumSeq(y.v), Len(y.v) * S * y.k>>, t |-> <<d.p[1], S>>])
+          ELSE [pc |-> "var", m |-> <<SumSeq(y.v), Len(y.v) * S * y.k>>, t |-> VarTarget(d)])
   ELSE IF IsPost(d) THEN [a |-> Allowed(d, y.v), u |-> NeedsDistinct(d)]
   ELSE F(d, y.v)
 
